@@ -307,6 +307,47 @@ def recv_by_evaluation(body, cfg, du, parse_call, cont_assigns, hb_r, hb_w):
     return True
 
 
+def old_reply_guard_by_paths(f, read_call):
+    """every feasible path from the entry of recv() to the read has established that both the call object's reader and its writer
+    are present — by is_some()/is_none() on the field, or by matching the Option taken out of it on `Some`"""
+    from vlib.cfg import enumerate_paths
+    from vlib.pathcond import literals
+    body, cfg, du = f.body, f.cfg, f.du
+    def field_of(op):
+        if op is None or op.place is None: return None
+        for l in ref_chain(du, op.place.l):
+            for k, d in du.defs.get(l, []):
+                if k == "stmt" and d.kind == "assign" and d.rplace is not None and d.rplace.fields()[-1:] and d.rplace.fields()[-1] in ("reader", "writer") and "MethodCall" in body.ty(d.rplace.l):
+                    return d.rplace.fields()[-1]
+        if op.place.fields()[-1:] and op.place.fields()[-1] in ("reader", "writer"): return op.place.fields()[-1]
+        return None
+    hit = [False]
+    paths = enumerate_paths(cfg, 0, lambda blk: blk.idx == read_call.bb or blk.term.kind == "return", du=du, on_limit=lambda: hit.__setitem__(0, True))
+    if hit[0]: return False
+    n = 0
+    for p in paths:
+        if p[-1] != read_call.bb: continue
+        n += 1
+        have = {"reader": False, "writer": False}
+        for lit in literals(body, p):
+            if lit.kind == "call" and lit.obj.callee.name in ("is_some", "is_none") and lit.obj.args:
+                fld = field_of(lit.obj.args[0])
+                if fld and lit.truth == (lit.obj.callee.name == "is_some"): have[fld] = True
+        for a, b in zip(p, p[1:]):
+            t = body.blocks[a].term
+            if t.kind != "switch" or t.discr is None or t.discr.place is None or t.discr.place.p: continue
+            ds = du.value_defs(t.discr.place.l)
+            if len(ds) == 1 and ds[0][0] == "stmt" and ds[0][1].rv == "discr" and ds[0][1].rplace is not None and not ds[0][1].rplace.p:
+                src = ds[0][1].rplace.l
+                for k, o in Slice(body, du).origins(ds[0][1].rplace):
+                    if k == "call" and o.callee.name == "take" and o.args:
+                        fld = field_of(o.args[0])
+                        labs = [lab for lab, d in cfg.succ[a] if d == b]
+                        if fld and labs and labs[0] == 1: have[fld] = True
+        if not (have["reader"] and have["writer"]): return False
+    return n > 0
+
+
 def check_recv_protocol(cx, rule, prefix):
     """iterator/slot protocol of recv(): used as C05.R2 and C07.R3"""
     f = Fn(cx, MC + "recv")
@@ -376,6 +417,8 @@ def check_recv_protocol(cx, rule, prefix):
     ru = body.calls("=read_until")
     old = err_variant_blocks(body, "IteratorOldReply")
     good = len(nr) >= 2 and bool(old) and bool(ru) and all(ru[0].bb not in cfg.after(absent_edge(t, c)) for t, c in nr)
+    if not good and old and ru:
+        good = old_reply_guard_by_paths(f, ru[0])
     cx.check(good, rule, prefix + ":recv:old-reply-guard", site, "recv() on a call object that holds no stream does not fail before reading", note_ok="no reader/writer -> IteratorOldReply before any read")
     return f
 
